@@ -9,5 +9,8 @@ CONSTANTS
   WriteUnderLock = TRUE
   SingleWrite = TRUE
   RebindOnLarge = FALSE
+  Fault <- F030
+  DeferUnlock = TRUE
+  StickyError = TRUE
 INVARIANTS Emit OneWriter LinesCorrect BufExclusive
 CHECK_DEADLOCK FALSE
